@@ -134,13 +134,17 @@ def run(c):
                      "bit-flip/garbage/segment-count classes) + recorded random strings")
 
     # ---- 1. decision table: refinement I => P on every cell, oracle self-check ---------------------
-    depth, hotfrom = (3, 3) if thorough else (2, 3)
-    r = c.tlc(SD, "MC_SnapToken", cfg=cfg(c, "mc_gen.cfg", MC_TMPL.format(nbf="TRUE", depth=depth, hotfrom=hotfrom, gen="TRUE")),
-              timeout=2400, coverage=False)
-    for inv in r.violated:
-        c.violation("spec:%s" % inv, "design-level: %s violated on MC_SnapToken (see %s)" % (inv, r.out_path), {"tlc_out": r.out_path})
-    cells = c.printed_json(r, "CELL")
-    meta = c.printed_json(r, "META")
+    # quick: every pair of mutations; thorough: additionally every triple of mutations of the security-relevant
+    # fields (cfg, kid, alg, sig, ver, aud, exp, nbf)
+    plans = [(2, 3)] + ([(3, 1)] if thorough else [])
+    cells, meta = [], []
+    for pi, (depth, hotfrom) in enumerate(plans):
+        r = c.tlc(SD, "MC_SnapToken", cfg=cfg(c, "mc_gen_%d.cfg" % pi, MC_TMPL.format(nbf="TRUE", depth=depth, hotfrom=hotfrom, gen="TRUE")),
+                  timeout=3400, coverage=False)
+        for inv in r.violated:
+            c.violation("spec:%s" % inv, "design-level: %s violated on MC_SnapToken (see %s)" % (inv, r.out_path), {"tlc_out": r.out_path})
+        cells += c.printed_json(r, "CELL")
+        meta = meta or c.printed_json(r, "META")
     if not cells or not meta:
         c.fail_tool("MC_SnapToken printed no cells")
     r0 = c.tlc(SD, "MC_SnapToken", cfg=cfg(c, "mc_nbf_unchecked.cfg", MC_TMPL.format(nbf="FALSE", depth=1, hotfrom=3, gen="FALSE")),
